@@ -23,6 +23,8 @@ CONSTANTS
     DevVals = {"flip", "otherOrigin", "none"}
     PresentBudget = 0
     BurstN = 64
+    PressMax = 0
+    TouchOn = {}
     Mode = "edges"
     Depth = 0
 VIEW View
